@@ -787,16 +787,16 @@ func runSQLCond(c *core.Ctx) {
 			// the operand is built from this field's elements (a slice filled in a loop over them, or the field itself)
 			fromField := x.arg == filt+"."+row.field
 			if !fromField {
-				an.Instrs(build, func(in2 ssa.Instruction) {
-					st, ok := in2.(*ssa.Store)
+				an.Region(build, nil, func(o an.Occ) {
+					st, ok := o.In.(*ssa.Store)
 					if !ok {
 						return
 					}
 					ia, ok := st.Addr.(*ssa.IndexAddr)
-					if !ok || an.PathOf(ia.X) != x.arg {
+					if !ok || o.Path(ia.X) != x.arg {
 						return
 					}
-					vp := an.PathOf(st.Val)
+					vp := o.Path(st.Val)
 					if strings.Contains(vp, filt+"."+row.field) || (row.field == "Tags" && strings.Contains(vp, "rangeval("+filt+".Tags)")) {
 						if row.via == "" || strings.Contains(vp, row.via) {
 							fromField = true
